@@ -10,6 +10,7 @@ package main
 
 import (
 	"crypto/ecdsa"
+	"crypto/ed25519"
 	"crypto/elliptic"
 	"crypto/rand"
 	"crypto/sha256"
@@ -94,7 +95,7 @@ func pemOf(c *x509.Certificate) []byte {
 	return pem.EncodeToMemory(&pem.Block{Type: "CERTIFICATE", Bytes: c.Raw})
 }
 
-func mkCert(tpl, parent *x509.Certificate, pub *ecdsa.PublicKey, signer *ecdsa.PrivateKey) *x509.Certificate {
+func mkCert(tpl, parent *x509.Certificate, pub any, signer *ecdsa.PrivateKey) *x509.Certificate {
 	der, err := x509.CreateCertificate(rand.Reader, tpl, parent, pub, signer)
 	if err != nil {
 		panic(err)
@@ -158,7 +159,7 @@ type platform struct {
 	badExt  bool
 }
 
-func (p *pki) pckLeaf(pl *platform, key *ecdsa.PrivateKey, nb, na time.Time) *x509.Certificate {
+func (p *pki) pckLeaf(pl *platform, pub any, nb, na time.Time) *x509.Certificate {
 	oid := func(last ...int) asn1.ObjectIdentifier {
 		return append(asn1.ObjectIdentifier{1, 2, 840, 113741, 1, 13, 1}, last...)
 	}
@@ -185,7 +186,7 @@ func (p *pki) pckLeaf(pl *platform, key *ecdsa.PrivateKey, nb, na time.Time) *x5
 	}
 	t := tpl("verif SGX PCK Certificate", false, nb, na)
 	t.ExtraExtensions = []pkix.Extension{{Id: pcs.PCK_SGX_Extensions, Value: val}}
-	return mkCert(t, p.inter, &key.PublicKey, p.interKey)
+	return mkCert(t, p.inter, pub, p.interKey)
 }
 
 func le16(n int) []byte { return []byte{byte(n), byte(n >> 8)} }
@@ -233,7 +234,7 @@ var devNames = []string{"noFmspc", "badExt", "pckNotAfter", "pckNotBefore", "qeD
 	"foreignSeam", "blSigner", "sigKey", "sigBody", "tdxModPol", "tdxModPolBad", "tdxNil", "disabled", "fmspcList", "issueNow", "issueEdge",
 	"issueOld", "tiId", "tiFmspc", "tiVersion", "tiIssueBad", "tiNextBad", "tiEval", "tiSigKey", "tiSigShort", "qeId", "qeMisc", "qeFlags",
 	"qeXfrm", "qeMrs", "qeVersion", "qeEval", "qeProd", "qeMiscBad", "qeAttrBad", "qeSigKey2", "certs", "qIssueNow", "qIssueEdge", "qIssueOld",
-	"attRak", "attIdentity", "levelsHigh", "qeLevelsHigh", "qeLevelsHigh", "modLevels", "modLevels", "modIds", "noStatus", "badStatus", "validity0"}
+	"attRak", "attIdentity", "unboundPceId", "unboundTcbType", "unboundSeamAttrs", "unboundTdxModule", "unboundNextUpdate", "akInvalid", "pckEd25519", "tcbEd25519", "qeJson", "tiJson", "qeIssueBad", "qeNextBad", "levelsHigh", "qeLevelsHigh", "qeLevelsHigh", "modLevels", "modLevels", "modIds", "noStatus", "badStatus", "validity0"}
 
 // synthCase builds one complete input on a synthetic platform. A case deviates from a fully
 // valid input in 0-2 named ways, so that every check of the verifier is the first to fail
@@ -265,11 +266,18 @@ func synthCase(r *hlib.Rng, p *pki, res *hlib.Result) *Case {
 	if dev("pckNotBefore") {
 		nb = ts.Add(time.Duration(r.Intn(3)-1) * time.Second)
 	}
-	leaf := p.pckLeaf(pl, pckKey, nb, na)
+	leaf := p.pckLeaf(pl, &pckKey.PublicKey, nb, na)
+	if dev("pckEd25519") {
+		edPub, _, _ := ed25519.GenerateKey(rand.Reader)
+		leaf = p.pckLeaf(pl, edPub, nb, na)
+	}
 	chain := append(append(append([]byte{}, pemOf(leaf)...), p.interPEM...), p.rootPEM...)
 	// ---- QE report and attestation key
 	attKey := keyFrom(r)
 	ak := pubRaw(attKey)
+	if dev("akInvalid") {
+		ak = rbytes(r, 64) // not a curve point (with overwhelming probability); still bound by the QE report
+	}
 	auth := rbytes(r, 32)
 	qer := make([]byte, 384)
 	copy(qer[0:16], rbytes(r, 16))
@@ -346,6 +354,10 @@ func synthCase(r *hlib.Rng, p *pki, res *hlib.Result) *Case {
 		}
 		for i := 0; i < 8; i++ {
 			body[120+i] = byte(attrs >> (8 * i))
+		}
+		if dev("unboundSeamAttrs") {
+			copy(body[112:120], rbytes(r, 8)) // SEAMATTRIBUTES; the TCB info says they must be zero
+			c.Unbound = append(c.Unbound, "seamAttributes")
 		}
 		copy(body[136:520], rbytes(r, 384))
 		copy(body[520:584], rbytes(r, 64))
@@ -633,7 +645,28 @@ func synthCase(r *hlib.Rng, p *pki, res *hlib.Result) *Case {
 		ti["tdxModule"] = map[string]any{"mrsigner": strings.Repeat("00", 48), "attributes": "0000000000000000", "attributesMask": "FFFFFFFFFFFFFFFF"}
 		ti["tdxModuleIdentities"] = mods
 	}
+	// Documented-unbound fields: the verifier reads none of these (binding-fact table); the
+	// harness counts how often inputs that differ in them are accepted.
+	if dev("unboundPceId") {
+		ti["pceId"] = "0001" // the PCK certificate says 0000
+		c.Unbound = append(c.Unbound, "pceId")
+	}
+	if dev("unboundTcbType") {
+		ti["tcbType"] = 1
+		c.Unbound = append(c.Unbound, "tcbType")
+	}
+	if dev("unboundNextUpdate") {
+		ti["nextUpdate"] = tIssue.Add(time.Second).UTC().Format(tsFmt) // already past at the verification time
+		c.Unbound = append(c.Unbound, "nextUpdate")
+	}
+	if dev("unboundTdxModule") && tdx {
+		ti["tdxModule"] = map[string]any{"mrsigner": strings.Repeat("AB", 48), "attributes": "FFFFFFFFFFFFFFFF", "attributesMask": "FFFFFFFFFFFFFFFF"}
+		c.Unbound = append(c.Unbound, "tdxModule")
+	}
 	c.TcbBody, _ = json.Marshal(ti)
+	if dev("tiJson") {
+		c.TcbBody = [][]byte{c.TcbBody[:len(c.TcbBody)/2], []byte("[]"), []byte("null"), append([]byte("{\"id\":7,"), c.TcbBody[1:]...)}[r.Intn(4)]
+	}
 	tk := p.tcbKey
 	if dev("tiSigKey") {
 		tk = p.interKey
@@ -733,7 +766,16 @@ func synthCase(r *hlib.Rng, p *pki, res *hlib.Result) *Case {
 	if dev("qeAttrBad") {
 		qi[[]string{"attributes", "attributesMask"}[r.Intn(2)]] = []string{"FF", "zz", strings.Repeat("0", 34)}[r.Intn(3)]
 	}
+	if dev("qeIssueBad") {
+		qi["issueDate"] = []string{"2023-02-30T00:00:00Z", "yesterday"}[r.Intn(2)]
+	}
+	if dev("qeNextBad") {
+		qi["nextUpdate"] = ""
+	}
 	c.QeBody, _ = json.Marshal(qi)
+	if dev("qeJson") {
+		c.QeBody = [][]byte{c.QeBody[:len(c.QeBody)/2], []byte("{}x"), append([]byte("{\"tcbLevels\":3,"), c.QeBody[1:]...)}[r.Intn(3)]
+	}
 	qk := p.tcbKey
 	if dev("qeSigKey2") {
 		qk = pckKey
@@ -742,6 +784,13 @@ func synthCase(r *hlib.Rng, p *pki, res *hlib.Result) *Case {
 
 	// ---- TCB signing chain
 	c.Certs = append(append([]byte{}, p.tcbPEM...), p.rootPEM...)
+	if dev("tcbEd25519") {
+		edPub, _, _ := ed25519.GenerateKey(rand.Reader)
+		edCert := mkCert(tpl("verif SGX TCB Signing (ed25519)", false, p.t0.Add(-800*24*time.Hour), p.t0.Add(3000*24*time.Hour)), p.root, edPub, p.rootKey)
+		c.Certs = append(append([]byte{}, pemOf(edCert)...), p.rootPEM...)
+		c.Sec, c.Nsec = ts.Unix(), 0
+		return c
+	}
 	ck := 3
 	if dev("certs") {
 		ck = r.Intn(3)
